@@ -794,6 +794,14 @@ def tensor_method(it, base: VTensor, name, args, kwargs, node):
         if args:
             return VInt(shp[_int_list(it, args[0])[0]])
         return VTuple(tuple(VInt(s) for s in shp))
+    if name in ("new_ones", "new_zeros"):
+        # a fresh constant tensor with this tensor's dtype (and device)
+        shp = args[0] if len(args) == 1 and isinstance(args[0], (VList, VTuple)) else VList(list(args))
+        sizes = _size_list(it, shp)
+        dt = _dtype_of(kwargs, base.dtype) if "dtype" in kwargs else base.dtype
+        if name == "new_ones":
+            return VTensor(net.ones_tensor(sp, sizes), dt)
+        return VTensor(Block(sp, [[it.facts.norm(P.of(s_))] for s_ in sizes], {}), dt)
     if name == "repeat":
         reps = args[0] if len(args) == 1 and isinstance(args[0], (VList, VTuple)) else VTuple(tuple(args))
         return function(it, "torch.tile", [base, reps], {}, None, node)
